@@ -79,6 +79,16 @@ type Remote struct {
 
 	mu      sync.Mutex
 	pending map[string]pendingMsg
+	closed  bool
+}
+
+// Closed reports whether Serve has returned: the connection has ended and
+// nothing more will be read from it. Requests that were read before may still
+// be running.
+func (r *Remote) Closed() bool {
+	r.mu.Lock()
+	defer r.mu.Unlock()
+	return r.closed
 }
 
 // clearPending removes num oldest entries, must hold the r.mu lock.
@@ -130,6 +140,11 @@ func (r *Remote) handleRequest(msg *Message) error {
 }
 
 func (r *Remote) Serve() error {
+	defer func() {
+		r.mu.Lock()
+		r.closed = true
+		r.mu.Unlock()
+	}()
 	for {
 		msg, err := r.Codec.ReadMessage()
 		if err != nil {
